@@ -394,6 +394,16 @@ S(id="RG.intake.native", props=["C10"], spec="native/rg_intake_enum.c", mode="N"
   functions=["yaep_read_grammar"],
   what="through the public API: returns 0 iff none of the documented intake defects is present; a nonzero code names a defect that is present, equals yaep_error_code, "
        "the message is non-empty and the object then refuses to parse")
+S(id="UB.uninit.history", props=["C12"], spec="native/history_enum.c", mode="N", sanitize="memory", link=["allocate.c", "hashtab.c", "objstack.c", "vlobject.c", "yaep.c"], harness="main",
+  params={"quick": {"LEN": 4}, "thorough": {"LEN": 5}}, timeout=3000,
+  bound="every applicable history of <= 4 (thorough 5) operations over two objects (the space of G.history.native), the library built with MemorySanitizer",
+  functions=["yaep_create_grammar", "yaep_parse_grammar", "yaep_read_grammar", "yaep_parse", "yaep_free_grammar", "yaep_free_tree"],
+  what="no branch, address or library call of the real code depends on uninitialised memory along any of the histories (definitions that fail, parses with error recovery, redefinitions, frees)")
+S(id="UB.uninit.trees", props=["C12"], spec="native/cost_enum.c", mode="N", sanitize="memory", link=["allocate.c", "hashtab.c", "objstack.c", "vlobject.c", "yaep.c"], harness="main",
+  params={"quick": {"CMAX": 1}, "thorough": {"CMAX": 2}}, timeout=3000,
+  bound="the ambiguous cost families of P.cost.native with costs 0..1 (thorough 0..2), the library built with MemorySanitizer",
+  functions=["yaep_parse", "make_parse", "find_minimal_translation", "yaep_free_tree"],
+  what="no use of uninitialised memory while ambiguous DAGs are built, pruned by cost, walked and freed")
 S(id="G.history.native", props=["C14", "C15"], spec="native/history_enum.c", mode="N", link=["allocate.c", "hashtab.c", "objstack.c", "vlobject.c", "yaep.c"], harness="main",
   params={"quick": {"LEN": 5}, "thorough": {"LEN": 6}}, timeout=3000,
   bound="every applicable history of <= 5 (thorough 6) operations over two objects; 12 operations (create, 3 definitions, 2 lookahead settings, cost flag, all parses, 3 parses, free)",
